@@ -12,7 +12,9 @@ struct Term
 {
     virtual ~Term() {}
     // init, then prompt / echo settings, then the init step (prints the prompt)
-    virtual void start(unsigned cap, unsigned hist, TermSink *sink, const char *prompt, bool echo) = 0;
+    // flags: bit 0 = no signal callback is registered; bits 1..2 = what the terminal object's storage holds before init
+    //        (0x00, 0xA5, 0xFF, 0x01 bytes: the C API initialises a caller-supplied struct)
+    virtual void start(unsigned cap, unsigned hist, TermSink *sink, const char *prompt, bool echo, unsigned flags = 0) = 0;
     virtual void feed(int c) = 0;
     virtual long len() = 0;    // -1 when the implementation gives no public access
     virtual long cursor() = 0; // -1 when not accessible
